@@ -191,5 +191,9 @@ func recoverEvent(w *worldFile, sr *segResult) map[string]any {
 		return map[string]any{"ev": "Recover", "ok": false, "chain": []int{}, "problems": []string{"restart-failed"}, "info": tail(fmt.Sprint(info), 300)}
 	}
 	v := evaluate(w, sr.Out.Obs1)
-	return map[string]any{"ev": "Recover", "ok": true, "chain": v.Chain, "problems": v.Problems, "details": v.Details}
+	ev := map[string]any{"ev": "Recover", "ok": true, "chain": v.Chain, "problems": v.Problems}
+	if len(v.Details) > 0 {
+		ev["details"] = v.Details
+	}
+	return ev
 }
